@@ -20,7 +20,11 @@ namespace AIToolbox::POMDP {
                     if ( b[s] > b[maxS] ) maxS = s;
                 }
             }
-            maxS += S * std::min(static_cast<size_t>(entropy / stepSize), buckets);
+            // With a single state the entropy is always zero, and so is the
+            // step size: there is only the lowest-entropy bucket, and 0/0 must
+            // not be converted to an index.
+            if ( stepSize < 0.0 )
+                maxS += S * std::min(static_cast<size_t>(entropy / stepSize), buckets);
             return maxS;
         };
     }
